@@ -87,7 +87,16 @@ func (c *configLoader) Load(config any) error {
 	}
 
 	if err := loadAndMergeConfig(func() (*koanf.Koanf, error) {
-		return koanfFromEnv(c.o.envPrefix)
+		konf, err := koanfFromEnv(c.o.envPrefix)
+		if err != nil {
+			return nil, err
+		}
+
+		// nolint: forcetypeassert
+		expanded := koanf.New(".")
+		err = expanded.Load(confmap.Provider(expandKeys(konf.Raw()).(map[string]any), ""), nil)
+
+		return expanded, err
 	}); err != nil {
 		return err
 	}
